@@ -122,6 +122,33 @@ pub fn run(ctx: &mut Ctx) {
         if i % 8 == 0 {
             check_spelling(ctx, &mut ps, &spec, spec_seed, 0, spec_seed);
         }
+        // once in a while below a single comment line longer than 64 KiB (a comment-only line means nothing; what follows
+        // it still has to be read at its own place)
+        if i % 64 == 5 && spec.front.is_none() {
+            let sp = g::spell(&spec, spec_seed, feat::ALL & !feat::LEADING_BLANK, 1);
+            if let Some(exp) = &sp.expected {
+                let text = format!("-- {}\n{}", "lorem ipsum dolor ".repeat(3_700), sp.text);
+                let (ext, conv) = if extended { (cooklang::Extensions::all().bits(), "bundled") } else { (0, "empty") };
+                let case = Case::new("g1", text.as_str(), ext, conv).with(json!({"long_leading_comment": true}));
+                ctx.begin(&case);
+                let parser = ps.parser(ext, conv).clone();
+                match crate::core::guarded(|| parser.parse(&text)) {
+                    Err(p) => ctx.panic_violation(&case, "parse", p),
+                    Ok(r) => {
+                        let errs: Vec<String> = r.report().errors().map(|e| e.message.to_string()).collect();
+                        let img = r.output().map(|o| serde_json::to_value(o).unwrap_or(serde_json::Value::Null));
+                        let mut path = String::new();
+                        match img {
+                            Some(img) if errs.is_empty() => match g::json_diff(exp, &img, &mut path) {
+                                None => ctx.count("recipes_below_a_64k_comment_ok"),
+                                Some((p, a, b)) => ctx.violation(&case, "reference_model", &format!("{}|below_64k_comment", g::path_class(&p)), format!("at {p}: expected {a} but parsed {b}")),
+                            },
+                            _ => ctx.violation(&case, "reference_model", "unexpected_error|below_64k_comment", format!("errors: {errs:?}")),
+                        }
+                    }
+                }
+            }
+        }
     }
 }
 
